@@ -676,6 +676,7 @@ fn sweep(g: &mut Gen) -> Outcome {
     g.sample(|| format!("exhaustive single-byte sweep over {} bytes ({} bytes of signature/key material) of {}", raw.len(), (0..raw.len()).filter(|i| in_crypto(*i)).count(), render));
     let mut accepted = 0u64;
     let mut crypto_hits = 0u64;
+    let mut total_mutants = 0u64;
     let mut m = raw.clone();
     for i in 0..raw.len() {
         let bit = (seed as usize + i * 5) % 8;
@@ -686,6 +687,7 @@ fn sweep(g: &mut Gen) -> Outcome {
                 continue;
             }
             m[i] = *val;
+            total_mutants += 1;
             if in_crypto(i) {
                 crypto_hits += 1;
             }
@@ -714,7 +716,7 @@ fn sweep(g: &mut Gen) -> Outcome {
         }
         m[i] = raw[i];
     }
-    g.count("single-byte mutants", (raw.len() * 2) as u64);
+    g.count("single-byte mutants", total_mutants);
     g.count("mutants inside signature/key material", crypto_hits);
     g.count("mutants accepted unchanged", accepted);
     Outcome::Pass
